@@ -64,9 +64,10 @@ Holds(r, doc) ==
             LET v == Get(Sect(doc, "volumes"), k) IN ~(IsM(v) /\ Field(v, "external", B(FALSE)) = B(TRUE) /\ Keys(v) \cap {"driver", "driver_opts", "labels"} # {})
     [] r = "secret-one-source" -> \A k \in Keys(Sect(doc, "secrets")) :
             LET v == Get(Sect(doc, "secrets"), k) IN      \* a custom driver excuses neither a missing source nor two of them
-                Field(v, "external", B(FALSE)) = B(TRUE) \/ SourcesOf(v, {"file", "environment"}) = 1
+                \* external excuses a missing source, never several of them
+                SourcesOf(v, {"file", "environment"}) = 1 \/ (Field(v, "external", B(FALSE)) = B(TRUE) /\ SourcesOf(v, {"file", "environment"}) = 0)
     [] r = "config-one-source" -> \A k \in Keys(Sect(doc, "configs")) :
-            LET v == Get(Sect(doc, "configs"), k) IN Field(v, "external", B(FALSE)) = B(TRUE) \/ Has(v, "driver") \/ SourcesOf(v, {"file", "environment", "content"}) = 1
+            LET v == Get(Sect(doc, "configs"), k) IN SourcesOf(v, {"file", "environment", "content"}) = 1 \/ (Field(v, "external", B(FALSE)) = B(TRUE) /\ SourcesOf(v, {"file", "environment", "content"}) = 0)
     [] r = "acyclic" -> \A n \in Enabled(doc) : n \notin Reach(doc, DepTargets(Get(Svcs(doc), n)) \cap Enabled(doc), Cardinality(Keys(Svcs(doc))))
     [] OTHER -> \A n \in Enabled(doc) : HoldsFor(r, doc, n)
 Consistent(doc) == \A r \in RuleNames : Holds(r, doc)
